@@ -10,7 +10,7 @@ from . import CHECK_VERSION, core
 from .driver import HarnessError, ZygoteSet, simroot
 
 PROP = "C16"
-FOREIGN_FILES = os.environ.get("VERIF_FOREIGN", "0") == "1"  # switched on for good once the repair is in /repo
+FOREIGN_FILES = True
 PROFILE = "z_c16"
 ASSUMPTIONS = [
     "simulated processes are either baton-passing threads inside one forked interpreter or real fork()ed processes that block on a pipe at every seam (half of the runs each); only the choice of who runs is simulated, the code that runs is the real perform_cached_doit/pickle/SymPy on a real tmpfs directory",
